@@ -14,13 +14,19 @@ Record case := Case {
 
 Definition errors_of (c : case) : list string := check_fileset (k_texts c) (k_others c) (k_keys c).
 
+Fixpoint contains_l (sub s : list Ascii.ascii) : bool :=
+  if is_prefix_l sub s then true else match s with [] => false | _ :: s' => contains_l sub s' end.
+Definition contains (sub s : string) : bool := contains_l (chars_of sub) (chars_of s).
+
 (* classes of recorded findings, decided from the complaint itself *)
 Definition classify (e : string) : nat :=
   if has_prefix "unknown variable group_" e then code_known 5          (* D5: dots survive in variable names *)
   else if has_prefix "duplicate variable definition $group_" e then code_known 6   (* D6: - and _ collide *)
   else if has_prefix "invalid regular expression ^" e then code_known 7  (* D7: path inserted unescaped into a rewrite regex *)
   else if has_prefix "unix socket path too long" e then code_known 10    (* D10 *)
-  else if has_prefix "conflicting listen/server_name pair" e then code_known 25   (* D25 *)
+  else if has_prefix "conflicting listen/server_name pair" e && negb (has_suffix sep e) then code_known 25   (* D25: http servers (the pair names a server) *)
+  else if has_prefix "conflicting parameter in map: " e && contains "connection-closed-server.sock" e then code_known 49
+       (* D49: a TLS listener without a Route of its own hostname and a Route of that hostname on another listener of the port *)
   else if has_prefix "invalid number of arguments in rewrite" e then code_known 28 (* D28 *)
   else if has_prefix "directive is duplicate: client_" e || has_prefix "directive is duplicate: keepalive_" e
           || has_prefix "directive is duplicate: otel_" e then code_known 4           (* D4: policy include repeated *)
